@@ -460,6 +460,46 @@ def faults():
         return m
     yield ("name/clash", clash)
 
+    # two DIFFERENT modules of one path-qualified name that came in through from_proto (two packages, or one package read
+    # twice and one copy edited), meeting in one design
+    for how in ("two-packages", "one-package-read-twice", "imported-and-written"):
+        def clash_imported(how=how):
+            def pkg_of(w):
+                c = h.Module(name="ImportedCell")
+                c.p = h.Port(width=w)
+                c.r = h.R(r=w)(p=c.p[0], n=c.p[0])
+                return h.to_proto(c)
+
+            def cell(ns):
+                import types
+                for v in vars(ns).values():
+                    if isinstance(v, h.Module):
+                        return v
+                    if isinstance(v, types.SimpleNamespace):
+                        r = cell(v)
+                        if r is not None:
+                            return r
+                return None
+            one = cell(h.from_proto(pkg_of(1)))
+            if how == "two-packages":
+                two = cell(h.from_proto(pkg_of(2)))
+            elif how == "one-package-read-twice":
+                two = cell(h.from_proto(pkg_of(1)))
+                two.extra = h.Port()                  # the second copy goes its own way
+                two.r2 = h.R(r=5)(p=two.extra, n=two.extra)
+            else:
+                two = h.Module(name="ImportedCell")
+                two.p = h.Port(width=2)
+                two, one = one, two                   # the hand-written one first, the imported one second
+            m = base()
+            m.c1 = one(p=m.s1) if "p" in one.ports and one.ports["p"].width == 1 else one(p=m.s2)
+            if how == "one-package-read-twice":
+                m.c2 = two(p=m.s1, extra=m.s1)
+            else:
+                m.c2 = two(p=m.s2) if two.ports["p"].width == 2 else two(p=m.s1)
+            return m
+        yield (f"name/clash-imported/{how}", clash_imported)
+
     # two DIFFERENT modules made by equal generator calls (an uncached generator; a cached one across a cache reset)
     for how in ("uncached", "cache-reset"):
         def clash_gen(how=how):
